@@ -18,6 +18,15 @@ rlevinson, levup, aryule, rc2poly - functions of OTHER modules of the package - 
 module text and embedded (SCall / SCall1); keyword and omitted arguments are positions of the callee's parameter list; the hidden oracle parameters of a
 callee become hidden parameters of the caller.  Comparators: coq/Model/LoopIRWrap.v; theorem for aryule: coq/Proofs/LoopIRAryule.v.
 
+T7: the FFT-based kernels arma.arma2psd, minvar.minvar (the WHOLE function), correlog.CORRELOGRAMPSD and periodogram.speriodogram (1-D path) are translated
+too.  numpy.fft.fft / rfft (names bound exactly once at module level by `from numpy.fft import ..`) become [EFft] / [ERfft] = the DFT specification of
+Theory/Dft.v over a hidden twiddle parameter (the LAST parameter of the program: the value [VTw tw]); numpy.fft.fftshift, the builtin max of an array,
+numpy.mean, x.ndim, x.shape[0], type(x) == int, slice stores x[a:b:c] = e are IR primitives; `Window(N, name[, **p]).data`, numpy.pi and the results of
+the calls a spec declares oracles (xcorr) are hidden oracle parameters; `from . import tools` inside a block, a call of a package function as a statement,
+a package constant as a default (NFFT=default_NFFT), a dict default that only feeds an oracle, exception classes derived from errors.SpectrumError are
+accepted (all fail-closed, self-tested).  Comparators: coq/Model/LoopIRVec.v; generators: props/_loopir_vec.py; theorem for arma2psd:
+coq/Proofs/LoopIRArma2psd.v.
+
 The translator is fail-closed: an `ast` node outside the recognised subset aborts the translation of that function
 (`Untranslatable`), which the tie reports through ctx.broken as "translation of <fn> failed: <node>".  Nothing is
 skipped silently; what is ignored is listed here: docstrings / bare string statements, `logging.<f>(...)` statements
@@ -3633,7 +3642,10 @@ TRUSTED_LINE = ("loop-IR tie: the translator tools/props/_loopir.py (Python ast 
                 "snapshot source on every run and evaluated exactly (QcC, zero tolerance) against the hand-written model; for LEVINSON, CORRELATION, "
                 "levup, levdown, HERMTOEP, TOEPLITZ, arburg (with and without an order-selection criterion), the psi loop of minvar and - by composition of the CORRELATION and LEVINSON theorems through the call semantics - the wrappers aryule, ma, ac2poly, ac2rc, rc2poly `run program = model` is moreover a theorem (for rlevinson and the two Marple recursions: argument checks and orders 0/1) for all inputs (Proofs/LoopIR*.v), "
                 "all nine wrappers (aryule, ma, ac2poly, ac2rc, poly2ac, poly2rc, ar2rc, rc2poly, rc2ac) are translated with their callees (functions of other modules of the package, imports resolved syntactically, fail-closed) embedded and evaluated exactly on sampled inputs, "
-                "claimed only while the regenerated program text is the one the proof is about (compared on every run, reflexivity inside Coq)")
+                "claimed only while the regenerated program text is the one the proof is about (compared on every run, reflexivity inside Coq); "
+                "T7: the FFT-based kernels arma2psd (theorem for all inputs), minvar as a whole function, CORRELOGRAMPSD (CORRELATION embedded) and the 1-D path of speriodogram are "
+                "translated as well: numpy.fft.fft / rfft are the DFT specification of Theory/Dft.v over a hidden twiddle parameter (exact runs with tw1/tw2/tw4, binary64 runs with "
+                "a harness table), Window samples / numpy.pi / xcorr / pylab_rms_flat are oracle inputs")
 
 
 def loopir_tie(ctx, names):
